@@ -42,6 +42,25 @@ static inline void c14_sv_fresh(struct static_vector *v)
 }
 #endif
 
+#ifdef C14_HAVE_SS
+#ifndef SS_DATA
+#define SS_DATA data     /* name of the storage member: `data` in static_string.h, `_data` in std_portable.h */
+#endif
+/* a static_string in an ARBITRARY state satisfying SS: storage = fresh object of exactly CAP+1 bytes with arbitrary
+ * content, m_size = m <= CAP */
+static inline void c14_ss_any(struct static_string *s, size_t m, const char *content)
+{
+    __CPROVER_assume(m <= CAP);
+    s->SS_DATA = (char *)NEW_OBJ(CAP + 1);
+    s->m_size = m;
+#ifdef WITNESS_MODE
+    for (size_t i = 0; i < CAP + 1; i++) s->SS_DATA[i] = content[i];
+#else
+    (void)content;
+#endif
+}
+#endif
+
 /* an input array of n LIVE elements (iterator range / initializer list / source of push_back): exact-size object.
  * "every element is LIVE" is assumed for the ghost slot g_k. */
 static inline ELEM *c14_input(size_t n, const int *vals)
